@@ -16,6 +16,7 @@ pub fn dispatch(kind: u32, v: &Val) -> Option<Val> {
         1103 => Some(run_lines(v)),
         1105 => Some(run_look(v)),
         1107 => Some(run_passes_on_hir(v)),
+        1109 => Some(run_normalise(v)),
         1190 => Some(run_tables(v)),
         _ => None,
     }
@@ -273,6 +274,12 @@ fn run_passes_on_hir(v: &Val) -> Val {
         Ok(re) => Val::L(vec![Val::L(v.fld(4).list().iter().map(|l| find_all(&re, &l.bytes())).collect())]),
     });
     Val::L(out)
+}
+
+/// 1109: hir -> the same HIR rebuilt through regex-syntax's simplifying constructors (what each strip pass does)
+fn run_normalise(v: &Val) -> Val {
+    let mut ci = 0;
+    hir_to_val(&val_to_hir(v, &mut ci))
 }
 
 /// 1190: (cps bytes) -> (is_word_character per cp, rank per byte)
